@@ -10,6 +10,18 @@ props = [json.loads(l) for l in open(os.path.join(HERE, "properties.jsonl"))]
 TRUSTED = "Trusted base: CPython 3.12 ast + the may-raise/effect table sa/tables.py (A1), the engine sa/*.py; assumptions A1-A8 of DESIGN.md 3.11. "
 
 META = {
+    "C01": dict(
+        technique="path-sensitive dominance/dataflow over the envelope verifier (ast walker, access-path terms, event matching against primitive-level oracle); custom rules",
+        text="Decides the structural soundness argument of threshold verification for every input at once: every insertion into the counted-signer set (found by dataflow from the accept comparison) is dominated by key grammar, entry grammar for the mode, membership in the caller's authorized list and a successful ed25519 verify event over this key, this entry and canonserialize(envelope['signed']); every accepting exit is dominated by len(set) >= the caller's threshold; the two primitives cannot return without verify() and do not swallow InvalidSignature.",
+        note="Decides the dominance/dataflow conditions, not the cryptography: that Ed25519 verification itself is sound is assumed (A2). Counter-based accumulators are not recognised (reported as no verdict).",
+        ref="5 C01",
+    ),
+    "C02": dict(
+        technique="escape analysis of the per-entry loop, exhaustive 128-row decision table extracted from loop-body paths, sibling writer/reader agreement, stdout taint, static import closure; custom rules",
+        text="Shows that nothing a junk entry contains can abort or veto verification: the per-entry loop has an empty escape set for an unconstrained key/value, its decision function equals the specification on all 128 atom valuations, the only post-loop rejection is len(counted) < threshold exactly, signer and verifier agree on serializer/field/codec/filing, printed text is ASCII-safe, and every module chain is in the static import closure.",
+        note="Not decided: that an arbitrary conforming signer's bytes verify and that the shipped fixtures verify (crypto library, needs execution). An extra pre-loop rejection that can never coincide with sufficient signatures would still be reported.",
+        ref="5 C02",
+    ),
     "C13": dict(
         technique="exception-escape analysis (path-sensitive fact propagation + conditional summaries) over an ast-resolved program; call-graph acyclicity; custom rules",
         text="Static exception-escape analysis of all 24 public validators and 5 verifiers on every control-flow path: the escape set of each is within the documented families, named rejections carry the named classes, no while/recursion/mutated-iterable loops. Holds for every input because values are abstracted to guard facts; a new unguarded subscript, narrowed handler, assert-as-validation or foreign raise is reported with its call chain.",
